@@ -370,7 +370,10 @@ pub fn encode_composite(g: &CompositeGlyph, enc: &Encoding) -> Result<Vec<u8>, E
     let mut ch = Chooser(mix(enc.seed ^ 0xc0c0));
     let mut b = Buf::new();
     let bbox = g.bbox.unwrap_or((0, 0, 0, 0));
-    b.i16(-1).i16(bbox.0).i16(bbox.1).i16(bbox.2).i16(bbox.3);
+    // any negative numberOfContours marks a composite ("-1 should be used"); mixed encodings
+    // write another negative value for one composite in six
+    let noc: i16 = if enc.transforms == Form::Mixed && ch.one_in(6) { [-2, -3, -7, -256, -32768, -1 - (1 + ch.below(3000) as i16)][ch.below(6)] } else { -1 };
+    b.i16(noc).i16(bbox.0).i16(bbox.1).i16(bbox.2).i16(bbox.3);
     let last = g.components.len() - 1;
     for (i, c) in g.components.iter().enumerate() {
         encode_component(c, i != last, i == last && g.instructions.is_some(), enc, &mut ch, &mut b);
